@@ -111,7 +111,7 @@ static void check_point(GridCtx & gc, const std::string & name, int level, int m
       if (gr.g->is_initialized()) grid_fail(cx, name, level, mode, wname, "decay0_generator", "rejected-but-initialized", "is_initialized() is true after a failed initialize()");
       continue;
     }
-    if (!legacy) continue;
+    if (mode < 1 || mode > 24) continue;
     // an accepted request always yields events satisfying C03/C04
     std::vector<double> dict = dict_for(c); double qmax = qmax_for(c); bxdecay0::event ev;
     Cfg ceff = c; if (c.win && !capable) ceff.win = false;
